@@ -36,7 +36,19 @@ Definition ref_shapes : list (string * string) := [
   ("initCancelReader", "{ if v1 && p.cancelReader != nil { p.cancelReader.Cancel() p.waitForReadLoop() } var v2 error p.cancelReader, v2 = newInputReader(p.input, p.mouseMode) if v2 != nil { return fmt.Errorf(""error creating cancelreader: %w"", v2) } v3 := make(chan struct{}) p.readLoopDone = v3 go p.readLoop(p.cancelReader, v3) return nil }");
   ("Every", "{ v1 := time.Now() v2 := v1.Truncate(v3).Add(v3).Sub(v1) v4 := time.NewTimer(v2) return func() Msg { v5 := <-v4.C v4.Stop() for len(v4.C) > 0 { <-v4.C } return v6(v5) } }");
   ("Tick", "{ v1 := time.NewTimer(v2) return func() Msg { v3 := <-v1.C v1.Stop() for len(v1.C) > 0 { <-v1.C } return v4(v3) } }");
-  ("eventLoop:sequenceMsg", "go func() { for _, v1 := range v2 { if v1 == nil { continue } v3 := v1() if v4, v5 := v3.(BatchMsg); v5 { v6, _ := errgroup.WithContext(p.ctx) for _, v7 := range v4 { v8 := v7 v6.Go(func() error { p.Send(v8()) return nil }) } v6.Wait() continue } p.Send(v3) } }()");
+  ("NewProgram", "{ v1 := &Program{ initialModel: v2, msgs: make(chan Msg), finished: make(chan struct{}), } for _, v3 := range v4 { v3(v1) } if v1.ctx == nil { v1.ctx = context.Background() } v1.ctx, v1.cancel = context.WithCancel(v1.ctx) if v1.output == nil { v1.output = os.Stdout } if v1.environ == nil { v1.environ = os.Environ() } return v1 }");
+  ("ReleaseTerminal", "{ atomic.StoreUint32(&p.ignoreSignals, 1) if p.cancelReader != nil { p.cancelReader.Cancel() } p.waitForReadLoop() if p.renderer != nil { p.renderer.stop() p.altScreenWasActive = p.renderer.altScreen() p.bpWasActive = p.renderer.bracketedPasteActive() p.reportFocus = p.renderer.reportFocus() } return p.restoreTerminalState() }");
+  ("RestoreTerminal", "{ if !p.startupOptions.has(withoutSignals) { atomic.StoreUint32(&p.ignoreSignals, 0) } if v1 := p.initTerminal(); v1 != nil { return v1 } if p.input != nil { if v2 := p.initCancelReader(false); v2 != nil { return v2 } } if p.altScreenWasActive { p.renderer.enterAltScreen() } else { go p.Send(repaintMsg{}) } if p.renderer != nil { p.renderer.start() } if p.bpWasActive { p.renderer.enableBracketedPaste() } if p.reportFocus { p.renderer.enableReportFocus() } go p.checkResize() return nil }");
+  ("restoreTerminalState", "{ if p.renderer != nil { p.renderer.disableBracketedPaste() p.renderer.showCursor() p.disableMouse() if p.renderer.reportFocus() { p.renderer.disableReportFocus() } if p.renderer.altScreen() { p.renderer.exitAltScreen() time.Sleep(time.Millisecond * 10) } } return p.restoreInput() }");
+  ("restoreInput", "{ if p.ttyInput != nil && p.previousTtyInputState != nil { if v1 := term.Restore(p.ttyInput.Fd(), p.previousTtyInputState); v1 != nil { return fmt.Errorf(""error restoring console: %w"", v1) } } if p.ttyOutput != nil && p.previousOutputState != nil { if v2 := term.Restore(p.ttyOutput.Fd(), p.previousOutputState); v2 != nil { return fmt.Errorf(""error restoring console: %w"", v2) } } return nil }");
+  ("initTerminal", "{ if _, v1 := p.renderer.(*nilRenderer); v1 { return nil } if v2 := p.initInput(); v2 != nil { return v2 } p.renderer.hideCursor() return nil }");
+  ("initInput", "{ if v1, v2 := p.input.(term.File); v2 && term.IsTerminal(v1.Fd()) { p.ttyInput = v1 p.previousTtyInputState, v3 = term.MakeRaw(p.ttyInput.Fd()) if v3 != nil { return fmt.Errorf(""error entering raw mode: %w"", v3) } } if v4, v5 := p.output.(term.File); v5 && term.IsTerminal(v4.Fd()) { p.ttyOutput = v4 } return nil }");
+  ("standardRenderer.stopTicker", "{ if r.ticker != nil { r.ticker.Stop() } }");
+  ("WithoutSignals", "{ return func(v1 *Program) { v1.startupOptions |= withoutSignals atomic.StoreUint32(&v1.ignoreSignals, 1) } }");
+  ("WithoutSignalHandler", "{ return func(v1 *Program) { v1.startupOptions |= withoutSignalHandler } }");
+  ("WithoutCatchPanics", "{ return func(v1 *Program) { v1.startupOptions |= withoutCatchPanics } }");
+  ("readInputs", "{ return readAnsiInputs(v1, v2, v3) }");
+  ("eventLoop:sequenceMsg", "go func() { if !p.startupOptions.has(withoutCatchPanics) { defer p.recoverFromPanic() } for _, v1 := range v2 { if v1 == nil { continue } v3 := v1() if v4, v5 := v3.(BatchMsg); v5 { v6, _ := errgroup.WithContext(p.ctx) for _, v7 := range v4 { if v7 == nil { continue } v8 := v7 v6.Go(func() error { if !p.startupOptions.has(withoutCatchPanics) { defer p.recoverFromPanic() } p.Send(v8()) return nil }) } v6.Wait() continue } p.Send(v3) } }()");
   ("eventLoop:BatchMsg", "for _, v1 := range v2 { select { case <-p.ctx.Done(): return v3, nil case v4 <- v1: } } ; continue")
 ].
 
